@@ -94,6 +94,15 @@ def evaluate(call, keep=None):
             d = bs.Dtype(*args, scale=scale) if scale is not None else bs.Dtype(*args)
             probe_bits = '01011010' * 8
             obs = [d.name, d.length, d.bitlength, nv(d.scale), str(d), repr(d)]
+            # equality and hashing against the same dtype reached through the other constructor form and through a token string
+            try:
+                twin = bs.Dtype(d.name, d.length) if d.length is not None else bs.Dtype(d.name)
+                obs += [d == twin, twin == d, d != twin, hash(d) == hash(twin), d in [twin], {twin: 1}.get(d)]
+                if d.length:
+                    tw2 = bs.Dtype(f'{d.name}{d.length}')
+                    obs += [d == tw2, hash(d) == hash(tw2)]
+            except Exception as e:  # noqa
+                obs.append(['exc', type(e).__name__])
             if d.bitlength:
                 p = bs.Bits(bin=probe_bits[:d.bitlength])
                 try:
